@@ -53,7 +53,11 @@ func c12RuneClass(r rune) string {
 	return "supplementary-nonprintable"
 }
 
-type c12gen struct{ r *core.Rng }
+type c12gen struct {
+	r       *core.Rng
+	arrays  []*zygo.SexpArray
+	noShare bool // set while placeholders are resolved: an array complete by now may contain the placeholder (a cycle)
+}
 
 func (g *c12gen) rune1() rune {
 	if g.r.N(3) == 0 {
@@ -117,12 +121,17 @@ func (g *c12gen) value(d int, jsonLike bool) zygo.Sexp {
 		}
 		return nil // symbol: needs an env, filled by caller
 	case 7, 8:
+		if len(g.arrays) > 0 && !g.noShare && g.r.N(6) == 0 {
+			return g.arrays[g.r.N(len(g.arrays))] // the very same array object at a second position (empty ones included)
+		}
 		n := g.r.N(4)
 		arr := make([]zygo.Sexp, 0, n)
 		for i := 0; i < n; i++ {
 			arr = append(arr, g.value(d-1, jsonLike))
 		}
-		return &zygo.SexpArray{Val: arr}
+		a := &zygo.SexpArray{Val: arr}
+		g.arrays = append(g.arrays, a)
+		return a
 	}
 	if jsonLike {
 		return &c12hashSpec{g: g, d: d}
@@ -150,6 +159,7 @@ func (*c12hashSpec) SexpString(*zygo.PrintState) string { return "" }
 func (*c12hashSpec) Type() *zygo.RegisteredType         { return nil }
 
 func c12Resolve(env *zygo.Zlisp, g *c12gen, v zygo.Sexp) zygo.Sexp {
+	g.noShare = true
 	switch x := v.(type) {
 	case nil:
 		return env.MakeSymbol(c12Syms[g.r.N(len(c12Syms))])
@@ -481,6 +491,12 @@ func c12Value(c *core.Ctx, i int) *core.Result {
 	jsonLike := i%3 == 2
 	env := zygo.NewZlisp()
 	env.StandardSetup()
+	if i%4 == 1 {
+		// the interpreter has read (and rejected, or been left in the middle of) other texts before
+		for _, junk := range []string{"\"\\x4g\"\n", "\"abc\\u00", "'\\x4", "(quote 1.2.3)\n", "\"open", "0x\n"} {
+			sut.Eval(env, junk, 0)
+		}
+	}
 	v := c12Resolve(env, g, g.value(1+i%5, jsonLike))
 	printed := ""
 	pan, site := sut.Protect(func() { printed = v.SexpString(nil) })
@@ -531,10 +547,19 @@ func c12Value(c *core.Ctx, i int) *core.Result {
 	}
 	if i%9 == 2 { // data saved as text can be sourced again
 		path := filepath.Join(c.Work, fmt.Sprintf("c12-%d.zy", i))
+		os.MkdirAll(c.Work, 0755)
 		os.WriteFile(path, []byte("(def fromfile "+printed+")\n"), 0644)
 		o2 := sut.Eval(env, fmt.Sprintf("(source %q)\nfromfile\n", path), 0)
 		os.Remove(path)
 		res.Ev("file_round_trips", 1)
+		// and saved by the script itself: the printed text written with owritef, then sourced
+		o3 := sut.Eval(env, fmt.Sprintf("(owritef (str vv) %q)\n(source %q)\n", path, path), 0)
+		os.Remove(path)
+		if o3.Err != nil || o3.Panic != "" {
+			res.Violate("saved-text-not-sourceable:owritef:"+cls, fmt.Sprintf("(owritef (str v) f) then (source f) fails for v = %s: %s", printed, OutStr(o3)), printed)
+		} else if ok, why := c12Equal(v, o3.Val); !ok {
+			res.Violate("sourced-form-differs:owritef:"+cls, fmt.Sprintf("(owritef (str v) f) then (source f) gives %s for v = %s (%s)", o3.Val.SexpString(nil), printed, why), printed)
+		}
 		if o2.Err != nil || o2.Panic != "" {
 			res.Violate("saved-text-not-sourceable:"+cls, fmt.Sprintf("file holding (def fromfile %s) cannot be sourced: %s", printed, OutStr(o2)), printed)
 		} else if ok, why := c12Equal(v, o2.Val); !ok {
